@@ -2,92 +2,175 @@ package main
 
 // C01D: the side conditions that the declaration handling of /repo/js checks, read from the source
 // (lean/Verif/Gen/JsHoistFacts.lean).  The Lean model branches on them, so that it follows the code when one of the
-// repairs docs/C01D-fix-{1,2,3}.patch (or an equivalent one) is committed:
-//   * mergeChecksOwnFunction: the conditions of the two `if v, ok := binaryExpr.X.(*js.Var); …` in
-//     mergeVarDeclExprStmt are {ok, v.Decl == js.VariableDecl} (false) or additionally declaredInFunc(decl, v) (true);
-//   * isShadowedKnowsWhile: isShadowed has two parameters (false) or a third one fed from whileHeadVisitor (true);
-//   * endsInIfOptimizesLoops: the ForStmt case of endsInIf is `return endsInIf(stmt.Body)` (false) or first assigns
-//     `stmt.Body.List = optimizeStmtList(stmt.Body.List, iterationBlock)` (true);
-//   * emptyDeclBodyWritesSemicolon: minifyBlockAsStmt writes `;` for a body that is a single var declaration without
-//     items (it calls onlyStmt) or not;
-//   * catchKeepsAssignedByVar: the condition under which minifyStmt drops a catch binding is
-//     {ok, v.Uses == 1, m.o.minVersion(2019)} (false) or additionally !assignedByVar(stmt.Catch, v.Data) (true).
-// Any other shape is an error: the model does not know what the code checks.
+// repairs docs/C01D-fix-{1..5}.patch (or an equivalent one) is committed:
+//   * mergeChecksOwnFunction: the two tests of the assignment target in mergeVarDeclExprStmt
+//     (`if v, ok := <e>.X.(*js.Var); …`) consist of {ok, v.Decl == …VariableDecl} (false) or additionally a call
+//     f(<decl>, v) of a function that looks through `….Scope.Func.Declared` (true);
+//   * isShadowedKnowsWhile: isShadowed has two parameters (false) or a third one and there is a visitor type with an
+//     Enter method that compares `d.Scope != &n.Body.Scope` (true);
+//   * catchKeepsAssignedByVar: the condition under which minifyStmt drops a catch binding
+//     (`if v, ok := <e>.Binding.(*js.Var); …`) consists of {ok, v.Uses == 1, <version gate>(2019)} (false) or additionally
+//     `!f(<e>.Catch, v.Data)` (true);
+//   * endsInIfOptimizesLoops: the ForStmt case of endsInIf is `return endsInIf(<s>.Body)` (false) or first assigns
+//     `<s>.Body.List = f(<s>.Body.List, …)` (true);
+//   * emptyDeclBodyWritesSemicolon: minifyBlockAsStmt has a branch for a `*js.VarDecl` with `len(….List) == 0`.
+// The recognisers go by the SHAPE of the syntax (which field of which bound variable is compared with what), not by
+// the spelling of local variables, receivers or helper functions.  Any other shape is an error: the model does not know
+// what the code checks.
 
 import (
 	"fmt"
 	"go/ast"
 	"go/token"
 	"go/types"
-	"sort"
 	"strings"
 )
 
-func c01dConjuncts(e ast.Expr) []string {
-	if b, ok := e.(*ast.BinaryExpr); ok && b.Op == token.LAND {
-		return append(c01dConjuncts(b.X), c01dConjuncts(b.Y)...)
+func c01dConjuncts(e ast.Expr) []ast.Expr {
+	switch x := e.(type) {
+	case *ast.BinaryExpr:
+		if x.Op == token.LAND {
+			return append(c01dConjuncts(x.X), c01dConjuncts(x.Y)...)
+		}
+	case *ast.ParenExpr:
+		return c01dConjuncts(x.X)
 	}
-	if p, ok := e.(*ast.ParenExpr); ok {
-		return c01dConjuncts(p.X)
-	}
-	return []string{types.ExprString(e)}
+	return []ast.Expr{e}
 }
 
-func c01dSame(a []string, b ...string) bool {
-	a = append([]string{}, a...)
-	sort.Strings(a)
-	sort.Strings(b)
-	return strings.Join(a, " && ") == strings.Join(b, " && ")
+func c01dIdent(e ast.Expr, name string) bool {
+	id, ok := e.(*ast.Ident)
+	return ok && id.Name == name
+}
+
+// c01dSel: e is `<x>.<field>` with x the identifier `of` ("" = any expression)
+func c01dSel(e ast.Expr, of, field string) bool {
+	s, ok := e.(*ast.SelectorExpr)
+	if !ok || s.Sel.Name != field {
+		return false
+	}
+	return of == "" || c01dIdent(s.X, of)
+}
+
+// c01dVarAssert: `v, ok := <e>.<field>.(*js.Var)`; returns the names of v and ok
+func c01dVarAssert(st ast.Stmt, field string) (v, ok string, found bool) {
+	as, isAs := st.(*ast.AssignStmt)
+	if !isAs || as.Tok != token.DEFINE || len(as.Lhs) != 2 || len(as.Rhs) != 1 {
+		return
+	}
+	ta, isTa := as.Rhs[0].(*ast.TypeAssertExpr)
+	if !isTa || ta.Type == nil || !c01dSel(ta.X, "", field) {
+		return
+	}
+	star, isStar := ta.Type.(*ast.StarExpr)
+	if !isStar || !c01dSel(star.X, "", "Var") {
+		return
+	}
+	a, okA := as.Lhs[0].(*ast.Ident)
+	b, okB := as.Lhs[1].(*ast.Ident)
+	if !okA || !okB {
+		return
+	}
+	return a.Name, b.Name, true
+}
+
+// c01dCmp: `<v>.<field> == <rhs>` (either order); returns the other side
+func c01dCmp(e ast.Expr, v, field string) (ast.Expr, bool) {
+	b, ok := e.(*ast.BinaryExpr)
+	if !ok || b.Op != token.EQL {
+		return nil, false
+	}
+	if c01dSel(b.X, v, field) {
+		return b.Y, true
+	}
+	if c01dSel(b.Y, v, field) {
+		return b.X, true
+	}
+	return nil, false
+}
+
+func c01dFuncByName(r *Repo, name string) *ast.FuncDecl {
+	fd, err := r.FindFunc("js", "", name)
+	if err != nil {
+		return nil
+	}
+	return fd
+}
+
+func c01dBodyText(fd *ast.FuncDecl) string {
+	var sb strings.Builder
+	ast.Inspect(fd.Body, func(n ast.Node) bool {
+		if e, ok := n.(ast.Expr); ok {
+			sb.WriteString(types.ExprString(e))
+			sb.WriteByte('\n')
+		}
+		return true
+	})
+	return sb.String()
 }
 
 func init() {
 	gen("JsHoistFacts", func(r *Repo) (string, error) {
-		// 1. mergeVarDeclExprStmt
+		// 1. mergeVarDeclExprStmt: the tests of the assignment target
 		fd, err := r.FindFunc("js", "", "mergeVarDeclExprStmt")
 		if err != nil {
 			return "", err
 		}
-		var conds [][]string
+		declParam := ""
+		if fd.Type.Params != nil && len(fd.Type.Params.List) > 0 && len(fd.Type.Params.List[0].Names) > 0 {
+			declParam = fd.Type.Params.List[0].Names[0].Name
+		}
+		nTests, nOwn := 0, 0
+		var ferr error
 		ast.Inspect(fd.Body, func(n ast.Node) bool {
 			ifs, ok := n.(*ast.IfStmt)
 			if !ok || ifs.Init == nil {
 				return true
 			}
-			as, ok := ifs.Init.(*ast.AssignStmt)
-			if !ok || len(as.Rhs) != 1 || types.ExprString(as.Rhs[0]) != "binaryExpr.X.(*js.Var)" {
+			v, okName, found := c01dVarAssert(ifs.Init, "X")
+			if !found {
 				return true
 			}
-			conds = append(conds, c01dConjuncts(ifs.Cond))
+			nTests++
+			seenOk, seenDecl, seenOwn := false, false, false
+			for _, c := range c01dConjuncts(ifs.Cond) {
+				if c01dIdent(c, okName) {
+					seenOk = true
+				} else if rhs, ok := c01dCmp(c, v, "Decl"); ok && c01dSel(rhs, "", "VariableDecl") {
+					seenDecl = true
+				} else if call, ok := c.(*ast.CallExpr); ok && len(call.Args) == 2 && c01dIdent(call.Args[0], declParam) && c01dIdent(call.Args[1], v) {
+					callee, isId := call.Fun.(*ast.Ident)
+					var cf *ast.FuncDecl
+					if isId {
+						cf = c01dFuncByName(r, callee.Name)
+					}
+					if cf == nil || !strings.Contains(c01dBodyText(cf), ".Scope.Func.Declared") {
+						ferr = fmt.Errorf("mergeVarDeclExprStmt: the function called on (declaration, target) does not look through ….Scope.Func.Declared")
+					}
+					seenOwn = true
+				} else {
+					ferr = fmt.Errorf("mergeVarDeclExprStmt: unknown side condition %q", types.ExprString(c))
+				}
+			}
+			if !seenOk || !seenDecl {
+				ferr = fmt.Errorf("mergeVarDeclExprStmt: a test of the assignment target lacks `ok` or `Decl == VariableDecl`")
+			}
+			if seenOwn {
+				nOwn++
+			}
 			return true
 		})
-		if len(conds) != 2 {
-			return "", fmt.Errorf("mergeVarDeclExprStmt: expected 2 tests of the assignment target, found %d", len(conds))
+		if ferr != nil {
+			return "", ferr
 		}
-		own := false
-		for i, c := range conds {
-			switch {
-			case c01dSame(c, "ok", "v.Decl == js.VariableDecl"):
-				if i > 0 && own {
-					return "", fmt.Errorf("mergeVarDeclExprStmt: the two tests of the assignment target differ")
-				}
-			case c01dSame(c, "ok", "v.Decl == js.VariableDecl", "declaredInFunc(decl, v)"):
-				if i > 0 && !own {
-					return "", fmt.Errorf("mergeVarDeclExprStmt: the two tests of the assignment target differ")
-				}
-				own = true
-			default:
-				return "", fmt.Errorf("mergeVarDeclExprStmt: unknown side condition %q", strings.Join(c, " && "))
-			}
+		if nTests != 2 {
+			return "", fmt.Errorf("mergeVarDeclExprStmt: expected 2 tests of the assignment target, found %d", nTests)
 		}
-		if own {
-			df, err := r.FindFunc("js", "", "declaredInFunc")
-			if err != nil {
-				return "", err
-			}
-			if !strings.Contains(c01dBodyText(df), "decl.Scope.Func.Declared") {
-				return "", fmt.Errorf("declaredInFunc: does not look through decl.Scope.Func.Declared")
-			}
+		if nOwn != 0 && nOwn != 2 {
+			return "", fmt.Errorf("mergeVarDeclExprStmt: the two tests of the assignment target differ")
 		}
+		own := nOwn == 2
+
 		// 2. isShadowed
 		sf, err := r.FindFunc("js", "", "isShadowed")
 		if err != nil {
@@ -101,42 +184,95 @@ func init() {
 		switch np {
 		case 2:
 		case 3:
-			if _, err := r.FindFunc("js", "whileHeadVisitor", "Enter"); err != nil {
-				return "", fmt.Errorf("isShadowed has a third parameter but there is no whileHeadVisitor")
+			files, err := r.Files("js")
+			if err != nil {
+				return "", err
+			}
+			found := false
+			for _, f := range files {
+				for _, d := range f.Decls {
+					m, ok := d.(*ast.FuncDecl)
+					if !ok || m.Recv == nil || m.Name.Name != "Enter" || m.Body == nil {
+						continue
+					}
+					ast.Inspect(m.Body, func(n ast.Node) bool {
+						b, ok := n.(*ast.BinaryExpr)
+						if !ok || b.Op != token.NEQ {
+							return true
+						}
+						u, isU := b.Y.(*ast.UnaryExpr)
+						if c01dSel(b.X, "", "Scope") && isU && u.Op == token.AND && c01dSel(u.X, "", "Scope") {
+							if inner, ok := u.X.(*ast.SelectorExpr); ok && c01dSel(inner.X, "", "Body") {
+								found = true
+							}
+						}
+						return true
+					})
+				}
+			}
+			if !found {
+				return "", fmt.Errorf("isShadowed has a third parameter but no visitor compares a declaration's scope with the scope of a loop body")
 			}
 			while = true
 		default:
 			return "", fmt.Errorf("isShadowed: %d parameters", np)
 		}
+
 		// 3. the catch binding
 		mf, err := r.FindFunc("js", "*jsMinifier", "minifyStmt")
 		if err != nil {
 			return "", err
 		}
-		var catchConds [][]string
+		nCatch := 0
+		assigned := false
 		ast.Inspect(mf.Body, func(n ast.Node) bool {
 			ifs, ok := n.(*ast.IfStmt)
 			if !ok || ifs.Init == nil {
 				return true
 			}
-			as, ok := ifs.Init.(*ast.AssignStmt)
-			if !ok || len(as.Rhs) != 1 || types.ExprString(as.Rhs[0]) != "stmt.Binding.(*js.Var)" {
+			v, okName, found := c01dVarAssert(ifs.Init, "Binding")
+			if !found {
 				return true
 			}
-			catchConds = append(catchConds, c01dConjuncts(ifs.Cond))
+			nCatch++
+			seenOk, seenUses, seenGate := false, false, false
+			for _, c := range c01dConjuncts(ifs.Cond) {
+				if c01dIdent(c, okName) {
+					seenOk = true
+					continue
+				}
+				if rhs, ok := c01dCmp(c, v, "Uses"); ok {
+					if lit, isLit := rhs.(*ast.BasicLit); isLit && lit.Value == "1" {
+						seenUses = true
+						continue
+					}
+				}
+				if call, ok := c.(*ast.CallExpr); ok && len(call.Args) == 1 {
+					if lit, isLit := call.Args[0].(*ast.BasicLit); isLit && lit.Value == "2019" {
+						seenGate = true
+						continue
+					}
+				}
+				if u, ok := c.(*ast.UnaryExpr); ok && u.Op == token.NOT {
+					if call, ok := u.X.(*ast.CallExpr); ok && len(call.Args) == 2 && c01dSel(call.Args[0], "", "Catch") && c01dSel(call.Args[1], v, "Data") {
+						assigned = true
+						continue
+					}
+				}
+				ferr = fmt.Errorf("minifyStmt: unknown condition for dropping the catch binding %q", types.ExprString(c))
+			}
+			if !seenOk || !seenUses || !seenGate {
+				ferr = fmt.Errorf("minifyStmt: the condition for dropping the catch binding lacks `ok`, `Uses == 1` or the version gate 2019")
+			}
 			return true
 		})
-		if len(catchConds) != 1 {
-			return "", fmt.Errorf("minifyStmt: expected 1 test of the catch binding, found %d", len(catchConds))
+		if ferr != nil {
+			return "", ferr
 		}
-		assigned := false
-		switch {
-		case c01dSame(catchConds[0], "ok", "v.Uses == 1", "m.o.minVersion(2019)"):
-		case c01dSame(catchConds[0], "ok", "v.Uses == 1", "m.o.minVersion(2019)", "!assignedByVar(stmt.Catch, v.Data)"):
-			assigned = true
-		default:
-			return "", fmt.Errorf("minifyStmt: unknown condition for dropping the catch binding %q", strings.Join(catchConds[0], " && "))
+		if nCatch != 1 {
+			return "", fmt.Errorf("minifyStmt: expected 1 test of the catch binding, found %d", nCatch)
 		}
+
 		// 4. endsInIf
 		ef, err := r.FindFunc("js", "", "endsInIf")
 		if err != nil {
@@ -144,35 +280,45 @@ func init() {
 		}
 		loops := false
 		foundFor := false
-		var ferr error
 		ast.Inspect(ef.Body, func(n ast.Node) bool {
 			cc, ok := n.(*ast.CaseClause)
-			if !ok || len(cc.List) != 1 || types.ExprString(cc.List[0]) != "*js.ForStmt" {
+			if !ok || len(cc.List) != 1 {
+				return true
+			}
+			star, isStar := cc.List[0].(*ast.StarExpr)
+			if !isStar || !c01dSel(star.X, "", "ForStmt") {
 				return true
 			}
 			foundFor = true
-			var texts []string
+			shape := []string{}
 			for _, st := range cc.Body {
 				switch x := st.(type) {
 				case *ast.ReturnStmt:
 					if len(x.Results) == 1 {
-						texts = append(texts, "return "+types.ExprString(x.Results[0]))
-						continue
+						if call, ok := x.Results[0].(*ast.CallExpr); ok && c01dIdent(call.Fun, ef.Name.Name) && len(call.Args) == 1 && c01dSel(call.Args[0], "", "Body") {
+							shape = append(shape, "return-rec-body")
+							continue
+						}
 					}
 				case *ast.AssignStmt:
-					if len(x.Lhs) == 1 && len(x.Rhs) == 1 {
-						texts = append(texts, types.ExprString(x.Lhs[0])+" = "+types.ExprString(x.Rhs[0]))
-						continue
+					if len(x.Lhs) == 1 && len(x.Rhs) == 1 && x.Tok == token.ASSIGN {
+						lhs, okL := x.Lhs[0].(*ast.SelectorExpr)
+						call, okC := x.Rhs[0].(*ast.CallExpr)
+						if okL && okC && lhs.Sel.Name == "List" && c01dSel(lhs.X, "", "Body") && len(call.Args) >= 1 &&
+							types.ExprString(call.Args[0]) == types.ExprString(x.Lhs[0]) {
+							shape = append(shape, "optimize-body")
+							continue
+						}
 					}
 				}
 				ferr = fmt.Errorf("endsInIf: unknown statement in the ForStmt case")
 			}
-			switch strings.Join(texts, "; ") {
-			case "return endsInIf(stmt.Body)":
-			case "stmt.Body.List = optimizeStmtList(stmt.Body.List, iterationBlock); return endsInIf(stmt.Body)":
+			switch strings.Join(shape, ";") {
+			case "return-rec-body":
+			case "optimize-body;return-rec-body":
 				loops = true
 			default:
-				ferr = fmt.Errorf("endsInIf: unknown ForStmt case %q", strings.Join(texts, "; "))
+				ferr = fmt.Errorf("endsInIf: unknown ForStmt case %q", strings.Join(shape, ";"))
 			}
 			return false
 		})
@@ -182,24 +328,52 @@ func init() {
 		if !foundFor {
 			return "", fmt.Errorf("endsInIf: no ForStmt case")
 		}
-		// 5. minifyBlockAsStmt
+
+		// 5. minifyBlockAsStmt: a branch for a var declaration without items
 		bf, err := r.FindFunc("js", "*jsMinifier", "minifyBlockAsStmt")
 		if err != nil {
 			return "", err
 		}
-		emptyBody := strings.Contains(c01dBodyText(bf), "onlyStmt(blockStmt)")
-		if emptyBody {
-			if _, err := r.FindFunc("js", "", "onlyStmt"); err != nil {
-				return "", err
+		emptyBody := false
+		ast.Inspect(bf.Body, func(n ast.Node) bool {
+			ifs, ok := n.(*ast.IfStmt)
+			if !ok || ifs.Init == nil {
+				return true
 			}
-		}
+			as, isAs := ifs.Init.(*ast.AssignStmt)
+			if !isAs || len(as.Lhs) != 2 || len(as.Rhs) != 1 {
+				return true
+			}
+			ta, isTa := as.Rhs[0].(*ast.TypeAssertExpr)
+			if !isTa || ta.Type == nil {
+				return true
+			}
+			star, isStar := ta.Type.(*ast.StarExpr)
+			d, isId := as.Lhs[0].(*ast.Ident)
+			if !isStar || !c01dSel(star.X, "", "VarDecl") || !isId {
+				return true
+			}
+			for _, c := range c01dConjuncts(ifs.Cond) {
+				b, ok := c.(*ast.BinaryExpr)
+				if !ok || b.Op != token.EQL {
+					continue
+				}
+				call, isCall := b.X.(*ast.CallExpr)
+				lit, isLit := b.Y.(*ast.BasicLit)
+				if isCall && isLit && lit.Value == "0" && c01dIdent(call.Fun, "len") && len(call.Args) == 1 && c01dSel(call.Args[0], d.Name, "List") {
+					emptyBody = true
+				}
+			}
+			return true
+		})
+
 		b := func(x bool) string {
 			if x {
 				return "true"
 			}
 			return "false"
 		}
-		return "/-! generated by harness/cmd/extract/c01d_facts.go from /repo/js/vars.go and /repo/js/js.go: the side conditions of the\n" +
+		return "/-! generated by harness/cmd/extract/c01d_facts.go from /repo/js/vars.go, js.go, util.go: the side conditions of the\n" +
 			"declaration handling (see the generator for the accepted shapes) -/\n" +
 			"namespace Verif.Gen.JsHoistFacts\n\n" +
 			"/-- `mergeVarDeclExprStmt` also requires the assignment target to be declared in the function of the declaration -/\n" +
@@ -214,16 +388,4 @@ func init() {
 			"def endsInIfOptimizesLoops : Bool := " + b(loops) + "\n\n" +
 			"end Verif.Gen.JsHoistFacts\n", nil
 	})
-}
-
-func c01dBodyText(fd *ast.FuncDecl) string {
-	var sb strings.Builder
-	ast.Inspect(fd.Body, func(n ast.Node) bool {
-		if e, ok := n.(ast.Expr); ok {
-			sb.WriteString(types.ExprString(e))
-			sb.WriteByte('\n')
-		}
-		return true
-	})
-	return sb.String()
 }
